@@ -27,7 +27,7 @@ def sources(prog):
             continue
         for b, t in f.body.calls():
             fr = callee_fn(t)
-            if fr is None:
+            if not fr:
                 continue
             if is_callee(t, *SRC_METHODS):
                 out.append((f, b, t, fr["def"].rsplit("::", 1)[-1]))
@@ -254,6 +254,18 @@ def run_e4(prog, rep, rule="E4", file_filter=None):
             rep.unresolved(rule, key, sp_str(t["sp"]), detail)
         else:
             rep.violation(rule, key, sp_str(t["sp"]), "hash-iteration order reaches an order-sensitive use: " + detail)
+    # positive control: the planted `m.keys().cloned().collect::<Vec<_>>()` of the control crate must be classified as order-sensitive
+    if file_filter is None and rule == "E4":
+        hit = False
+        if prog.control is not None:
+            for cf in prog.control.fns.values():
+                if cf.body is None or cf.name != "leaked_order":
+                    continue
+                for cb, ct in cf.body.calls():
+                    if is_callee(ct, *SRC_METHODS):
+                        v, _d = classify(prog, cf, cb, ct, ALLOW_LOOPS)
+                        hit = hit or v not in ("ok",)
+        rep.control(rule, hit, "planted hash-order leak (keys().cloned().collect::<Vec>) is reported")
     # exposures must have no internal callers (otherwise the caller is a source we did not classify)
     cg = prog.callgraph()
     for f in exposures:
